@@ -22,6 +22,8 @@ SPECS = [
     {'conv': 'ugrid', 'ny': 2, 'nx': 3, 'split': [[0, 0]]},
     {'conv': 'ugrid', 'ny': 2, 'nx': 3, 'tables': ['edge_node', 'face_edge', 'edge_face', 'face_face'], 'face_coords': True},
     {'conv': 'ugrid', 'ny': 2, 'nx': 3, 'tables': ['edge_face']},
+    # edge coordinate variables named by a mesh with / without an edge dimension: geometry either way
+    {'conv': 'ugrid', 'ny': 2, 'nx': 2, 'tables': ['edge_node'], 'edge_coords': True}, {'conv': 'ugrid', 'ny': 2, 'nx': 2, 'edge_coords': True},
 ]
 
 
